@@ -14,6 +14,8 @@ import M17.Model.Viterbi
 import M17.Model.Decoder
 import M17.Model.Queue
 import M17.Model.Llr
+import M17.Model.Dsp
+import M17.Gen.Taps
 
 open M17
 
@@ -102,6 +104,28 @@ def qTrace (cap : Nat) (ev : List Int) : String :=
       else go f rest q (i+1)
     | _, _ => s!"ok {i}"
   go (ev.length + 1) ev { cap := cap, items := [], st := .opn } 0
+
+/-- tap value as a Float (exact: 53-bit mantissa times a power of two) -/
+def tapFloat (p : Int × Nat) : Float := Float.ofInt p.1 * Float.exp2 (Float.ofInt (Int.ofNat p.2 - 1074))
+def tapFloat32 (p : Int × Nat) : Float32 := (tapFloat p).toFloat32
+
+def dblBits (y : Float) : Int := let b := Int.ofNat y.toBits.toNat; if b ≥ 2 ^ 63 then b - 2 ^ 64 else b
+
+def firRun {α : Type} [Add α] [Sub α] [Mul α] [OfNat α 0] (taps : List α) (conv : Int → α) (show_ : α → Int) (toks : List Int) : String :=
+  let rec go (fuel : Nat) (toks : List Int) (f : Dsp.Fir α) (acc : List Int) : List Int :=
+    match fuel, toks with
+    | 0, _ => acc
+    | _, [] => acc
+    | fu+1, t :: rest =>
+      if t == 999999 then go fu rest (Dsp.Fir.init taps) acc
+      else let (f', y) := f.step (conv t); go fu rest f' (acc ++ [show_ y])
+  joinInts (go (toks.length + 1) toks (Dsp.Fir.init taps) [])
+
+def iirRun {α : Type} [Add α] [Sub α] [Mul α] [OfNat α 0] (b a : List α) (conv : Int → α) (show_ : α → Int) (toks : List Int) : String :=
+  let g (l : List α) (i : Nat) : α := l.getD i 0
+  let f0 : Dsp.Iir3 α := { b := (g b 0, g b 1, g b 2), a := (g a 0, g a 1, g a 2), w1 := 0, w2 := 0 }
+  let (_, out) := toks.foldl (fun (st : Dsp.Iir3 α × List Int) t => let (f', y) := st.1.step (conv t); (f', st.2 ++ [show_ y])) (f0, [])
+  joinInts out
 
 /-- state carried across lines (stateful components get a field each) -/
 structure DrvState where
@@ -192,6 +216,12 @@ def handle (st : DrvState) (op : String) (a : List Int) : DrvState × String :=
       let r := Llr.llr tbl v
       [r.1, r.2]
     (st, joinInts outs)
+  | "fir", d :: toks =>
+    if d != 0 then (st, firRun (Gen.rxTapsD.map tapFloat) (fun n => Float.ofInt n / 4096) dblBits toks)
+    else (st, firRun (Gen.rxTapsF.map tapFloat32) (fun n => (Float.ofInt n).toFloat32 / 4096) (fun y => Int.ofNat y.toBits.toNat) toks)
+  | "iir", d :: toks =>
+    if d != 0 then (st, iirRun (Gen.corrBD.map tapFloat) (Gen.corrAD.map tapFloat) (fun n => Float.ofInt n / 4096) dblBits toks)
+    else (st, iirRun (Gen.corrBF.map tapFloat32) (Gen.corrAF.map tapFloat32) (fun n => (Float.ofInt n).toFloat32 / 4096) (fun y => Int.ofNat y.toBits.toNat) toks)
   | _, _ => (st, "bad-op")
 
 partial def loop (h : IO.FS.Stream) (out : IO.FS.Stream) (st : DrvState) : IO Unit := do
